@@ -1,11 +1,17 @@
 #!/usr/bin/env python3
 """Run checks against a seeded change in a scratch worktree (never touches /repo's working tree).
-usage: seedtest.py [-R] [--thorough] <patch> <prop> [<prop>...]      (-R: reverse-apply, e.g. to undo a fix: commit)"""
+usage: seedtest.py [-R] [--thorough] [--first <patch>] <patch> <prop> [<prop>...]
+  -R: reverse-apply, e.g. to undo a fix: commit;  --first <patch>: a later fix that touches the same lines, reversed before"""
 import sys, subprocess, os, json
 ROOT = os.path.dirname(os.path.dirname(os.path.abspath(__file__)))
 args = sys.argv[1:]
 rev = "-R" in args
 thorough = "--thorough" in args
+first = []
+while "--first" in args:
+    i = args.index("--first")
+    first.append(os.path.abspath(args[i + 1]))
+    del args[i:i + 2]
 args = [a for a in args if a not in ("-R", "--thorough")]
 patch, props = os.path.abspath(args[0]), args[1:]
 name = os.path.basename(os.path.dirname(patch)) if patch.endswith("patch.diff") else os.path.basename(patch)
@@ -15,6 +21,10 @@ def sh(c, **kw):
 r = sh("git -C /repo worktree add -q --detach %s HEAD" % wt)
 if r.returncode: sys.exit(r.stderr)
 try:
+    for fp in first:
+        ap = sh("git -C %s apply -R %s" % (wt, fp))
+        if ap.returncode:
+            sys.exit("patch does not apply: " + ap.stderr)
     ap = sh("git -C %s apply %s %s" % (wt, "-R" if rev else "", patch))
     if ap.returncode:
         sys.exit("patch does not apply: " + ap.stderr)
